@@ -58,7 +58,15 @@ type Result struct {
 	N       int    `json:"n"`
 	S       string `json:"s"`
 	Trace   string `json:"trace,omitempty"`
+	// Later: what the value returned by this parse reads as after the LATER parses of the same
+	// history, when that differs from what it was on return (the caller kept the pointer)
+	Later string `json:"later,omitempty"`
 }
+
+// Hold, when set, receives a reader of the value that an accepting parse
+// returned (the harness epilogue calls it with a closure over the returned
+// pointer), so that the driver can read the value again later.
+var Hold func(read func() (int, string))
 
 type Run struct {
 	Reds    []Red
